@@ -32,5 +32,6 @@ class Check(SiteCheck):
                  'class-signature links (annotation linker; checked against the model\'s taglink form and by the crawler), docutils-'
                  'internal links, zope.interface pages. Trusted: Coq kernel, gen_listings.py, extraction, harness + crawler; quote '
                  'never emits "#".'),
+        'tie': 'C1x_code_*_is_model: bodies of fullName/privacyClass/isVisible/isPrivate/page_object/url/taglink translated from the current source (Gen/SiteCode.v) and proved equal to the model',
         'technique': 'Coq proof (invariant over all entry producers of the site model, table-driven by a regenerated listing skeleton) + crawl correspondence',
     }
